@@ -20,7 +20,7 @@ class C09(core.Check):
             '(tensor or list), int slice, slice with float bounds and steps; shuffle (seeded torch RNG, return_perm on '
             'every other call); get_split; split(); tensor_frame; materialize again; col_select (illegal)} each applied '
             'to ANY previously derived dataset; about 8% of the indices are deliberately illegal. 1 of 4 cases is a '
-            'generate_random_split call (length 0..60 quick / 0..300 thorough, ratios from decimal / dyadic / thirds / '
+            'generate_random_split call (length 0..120 quick / 0..300 thorough, ratios from decimal / dyadic / thirds / '
             'random doubles / non-positive / >= 1, include_test on and off, seed < 2^32) run twice under different '
             'prior states of the global numpy generator. A history is non-trivial when at least one derived dataset '
             'has >= 1 row; a generator case when it returns >= 2 entries. distinct = distinct case hash.')
@@ -44,7 +44,7 @@ class C09(core.Check):
 
     # ------------------------------------------------------------------ generation
     def generate(self, rng, n, tier):
-        nmax = 300 if tier == 'thorough' else 60
+        nmax = 300 if tier == 'thorough' else 120
         for i in range(n):
             if i % 4 == 3:
                 yield G.gen_split_case(rng, self._stats, nmax)
@@ -238,7 +238,7 @@ class C09(core.Check):
             case = {'kind': 'hist', 'n': n, 'labels': list(range(5, 5 + n)), 'label_kind': 'offset',
                     'cols': ['rid', 'y'], 'target': 'y', 'split': [i % 3 for i in range(n)], 'ctor': 'ok',
                     'split_dtype': 'int64', 'ops': ops}
-            real, findings = G.run_real_history(case)
+            real, findings = G.run_real_history(case, watch='src')
             self._findings = findings
             v = self.oracle(case, real)
             self._findings = []
@@ -254,6 +254,7 @@ class C09(core.Check):
                         v = v2 or v
                         break
                 v.key = 'box/' + v.key
+                v.what = 'fractional-slice box: ' + v.what
                 report['violations'].append(v)
             model = self.model_outcome(case, drv.ask(self.model_requests(case)))
             ncase += len(ops) - 1
